@@ -51,15 +51,15 @@ def c08_name_single(a: str) -> bool:
 
 def c08_name_nested(a: str, b: str) -> bool:
     """
-    Two arguments, the first one itself templated: names are concatenated in order, each part capitalised
-    at its own first letter only (`Tmpl` + `A` + inner `B` + second).
+    Two arguments, the first one itself templated with two arguments (the second again templated with two): names
+    are concatenated in source order, depth first, each top-level part capitalised at its own first letter only.
     pre: is_ident(a, 1, LN2) and is_ident(b, 1, LN2 - 1)
     pre: not (kf_open('C08-capitalise') and (a[0] in a[1:] or a[0] in b or b[0] in b[1:]))
     post: _
     """
-    first = parser.Typename(["std", a], [parser.Typename([b])])
+    first = parser.Typename(["std", a], [parser.Typename([b]), parser.Typename(["y", "Zz"], [parser.Typename(["Q9"]), parser.Typename([b])])])
     got = H.instantiate_name("Tmpl", [first, parser.Typename(["x", b])])
-    want = "Tmpl" + _cap(a) + b + _cap(b)
+    want = "Tmpl" + _cap(a) + b + "Zz" + "Q9" + b + _cap(b)
     ok = got == want or _fail(a=a, b=b, got=got, want=want)
     reached()
     return ok
